@@ -59,7 +59,7 @@ Section IntProof.
       { rewrite <- (deltas_length rest v0), ED. apply (all_eq_repeat d (d :: ds)). simpl. rewrite Z.eqb_refl. exact Hm. }
       unfold int_enc_with. rewrite ED. cbn [hd app].
       unfold int_dec. rewrite nat_ltb_false by (cbn [length]; rewrite app_length, be_length; lia).
-      change (16 / 16 =? 4) with false. change (16 / 16 =? 1) with true. cbv iota.
+      tagsimp. 
       rewrite get_be_app by (rewrite pow256_8; apply zz_range; assumption).
       rewrite uvarint_roundtrip by (apply zz_range; assumption).
       rewrite <- (app_nil_r (put_uvarint (len rest))).
@@ -74,7 +74,7 @@ Section IntProof.
       assert (Lws : len ws = len sels) by (unfold len, ws; rewrite s8_encode_length; reflexivity).
       unfold int_enc_with. fold ds. fold ws. cbn [app].
       unfold int_dec. rewrite nat_ltb_false by (cbn [length]; rewrite app_length, be_length; lia).
-      change (32 / 16 =? 4) with false. change (32 / 16 =? 1) with false. change (32 / 16 =? 2) with true. cbv iota.
+      tagsimp. 
       rewrite nat_ltb_false by (rewrite !app_length, !be_length; lia).
       rewrite get_be_app by (rewrite pow256_4; pose proof (len_nonneg ws); lia).
       rewrite get_be_app by (rewrite pow256_4, len_cons; lia).
@@ -89,8 +89,7 @@ Section IntProof.
     - (* zstd *)
       unfold int_enc_with. cbv beta iota. set (vs := v0 :: rest) in *. set (c := zc (le_bytes vs)) in *. cbn [app].
       unfold int_dec. rewrite nat_ltb_false by (cbn [length]; rewrite app_length, be_length; lia).
-      change (48 / 16 =? 4) with false. change (48 / 16 =? 1) with false. change (48 / 16 =? 2) with false.
-      change (48 / 16 =? 3) with true. cbv iota.
+      tagsimp. 
       rewrite get_be_app by (rewrite pow256_4; unfold vs; rewrite len_cons; lia).
       rewrite <- (app_nil_r c) at 2.
       rewrite get_be_app by (rewrite pow256_4; pose proof (len_nonneg c); lia).
@@ -100,7 +99,7 @@ Section IntProof.
     - (* uncompressed *)
       unfold int_enc_with. cbv beta iota. set (vs := v0 :: rest) in *. cbn [app].
       unfold int_dec. rewrite nat_ltb_false by (cbn [length]; rewrite app_length, be_length; lia).
-      change (64 / 16 =? 4) with true. cbv iota.
+      tagsimp. 
       rewrite get_be_app by (rewrite pow256_4; unfold vs; rewrite len_cons; lia).
       rewrite ltb_false_ge by (len_norm; lia).
       rewrite be8_all_flat by (intros; apply zz_range; eapply words_ok_In; [exact Hw|assumption]).
@@ -146,7 +145,7 @@ Section TimeProof.
       { rewrite <- (deltas_length rest v0), ED. apply (all_eq_repeat d (d :: ds)). simpl. rewrite Z.eqb_refl. exact Hm. }
       unfold time_enc_with. rewrite ED. cbn [hd app].
       unfold time_dec. rewrite nat_ltb_false by (cbn [length]; rewrite app_length, be_length; lia).
-      change (16 / 16 =? 4) with false. change (16 / 16 =? 1) with true. cbv iota.
+      tagsimp. 
       rewrite get_be_app by (rewrite pow256_8; assumption).
       rewrite uvarint_roundtrip by assumption.
       rewrite <- (app_nil_r (put_uvarint (len rest))).
@@ -165,7 +164,7 @@ Section TimeProof.
       assert (Lws : len ws = len sels) by (unfold len, ws; rewrite s8_encode_length; reflexivity).
       unfold time_enc_with. fold ds. fold ws. cbn [app].
       unfold time_dec. rewrite nat_ltb_false by (cbn [length]; rewrite app_length, be_length; lia).
-      change (32 / 16 =? 4) with false. change (32 / 16 =? 1) with false. change (32 / 16 =? 2) with true. cbv iota.
+      tagsimp. 
       rewrite nat_ltb_false by (rewrite !app_length, !be_length; lia).
       rewrite get_be_app by (rewrite pow256_8; lia).
       rewrite get_be_app by (rewrite pow256_4; pose proof (len_nonneg ws); lia).
@@ -181,8 +180,7 @@ Section TimeProof.
     - (* snappy *)
       unfold time_enc_with. set (c := sc (le_bytes vs)) in *. cbn [app].
       unfold time_dec. rewrite nat_ltb_false by (cbn [length]; rewrite app_length, be_length; lia).
-      change (48 / 16 =? 4) with false. change (48 / 16 =? 1) with false. change (48 / 16 =? 2) with false.
-      change (48 / 16 =? 3) with true. cbv iota.
+      tagsimp. 
       rewrite get_be_app by (rewrite pow256_4; lia).
       rewrite <- (app_nil_r c) at 2.
       rewrite get_be_app by (rewrite pow256_4; pose proof (len_nonneg c); lia).
@@ -193,7 +191,7 @@ Section TimeProof.
     - (* uncompressed *)
       unfold time_enc_with. cbn [app].
       unfold time_dec. rewrite nat_ltb_false by (cbn [length]; rewrite app_length, be_length; lia).
-      change (64 / 16 =? 4) with true. cbv iota.
+      tagsimp. 
       rewrite get_be_app by (rewrite pow256_4; lia).
       rewrite ltb_false_ge by (len_norm; lia).
       rewrite be8_all_flat by (intros; apply zz_range; eapply words_ok_In; [exact Hw|assumption]).
